@@ -1,5 +1,5 @@
 """C16 — Max-min allocations are fair (DESIGN.md 3, C16, thin): the bottleneck selected at every filling round is the minimum."""
-from .. import ex, lib
+from .. import cfg, dims, ex, lib
 from ..core import where
 from ..ir import AnalysisBroken
 
@@ -100,6 +100,369 @@ def check_min_accumulator(ctx, A, f, pred, name, rule, role='min', same_candidat
     return n
 
 
+# ---- R3: an accumulation never continues from a consumed value ---------------------------------------------------------------------------------
+def strip(t):
+    while t[0] in ('cast', 'conv'):
+        t = t[2]
+    return t
+
+
+def acc_touch(acc, ev, helpers):
+    """how event ev touches the accumulator `acc` (a local variable term): 'reset' | 'update' (store that depends on the old value, or a helper taking
+    its address) | 'fresh' (store of a new value that does not read it) | 'read' | None"""
+    if ev.kind == 'assign':
+        lhs = strip(ev.lhs)
+        if lhs == acc or lhs == ('un', '*', acc):
+            rhs = strip(ev.rhs)
+            if ev.op != '=':
+                return 'update'
+            if rhs[0] == 'none':
+                return None
+            if is_sentinel_value(rhs):
+                return 'reset'
+            return 'update' if ex.mentions(rhs, acc) else 'fresh'
+        if ex.mentions(ev.rhs, acc) or ex.mentions(ev.lhs, acc):
+            return 'read'
+        return None
+    if ev.kind == 'call':
+        if ev.q in ('std::min', 'std::max'):
+            return None          # classified with the store that uses it
+        for a in ev.args:
+            a0 = strip(a)
+            if a0 == ('un', '&', acc) and ev.q in helpers:
+                return 'update'
+        if any(ex.mentions(a, acc) for a in ev.args) or (ev.obj is not None and ex.mentions(ev.obj, acc)):
+            return 'read'
+        return None
+    if ev.kind == 'return' and ev.val is not None and ex.mentions(ev.val, acc):
+        return 'read'
+    return None
+
+
+def internal_guards(v, acc, helpers):
+    """branch blocks testing acc from which a store to acc (update or first candidate) is the next thing that touches acc on some path: the test belongs
+    to the update idiom (if (acc < 0) acc = x; if (x < acc) acc = x;), it does not consume the accumulated value"""
+    def first_touch(b, seen):
+        if b in seen:
+            return set()
+        seen.add(b)
+        for eid in v.blocks[b].get('e', []):
+            for ev in v.events_of(eid):
+                k = acc_touch(acc, ev, helpers)
+                if k:
+                    return {k}
+        c = v.cond_atom(b)
+        if c is not None and ex.mentions(c[0], acc) and not v.is_log_branch(b):
+            return {'read'}
+        out = set()
+        ss = v.blocks[b].get('s', [])
+        if v.is_log_branch(b):
+            ss = [ss[1] if ss[1] is not None else ss[0]]
+        for s_ in ss:
+            if s_ is not None:
+                out |= first_touch(s_, seen)
+        return out
+    res = set()
+    for b in v.blocks:
+        c = v.cond_atom(b['id'])
+        if c is None or not ex.mentions(c[0], acc) or v.is_log_branch(b['id']):
+            continue
+        for s_ in b.get('s', []):
+            if s_ is not None and first_touch(s_, set()) & {'update', 'fresh'}:
+                res.add(b['id'])
+    return res
+
+
+def accumulators_of(A, f, helpers):
+    """local accumulators of f: locals with an extremum update (R1) or whose address goes to an extremum helper"""
+    v = A.view(f)
+    accs = {}
+    for eid in range(len(f['elems'])):
+        for ev in v.events_of(eid):
+            if ev.kind == 'assign' and strip(ev.lhs)[0] == 'var' and strip(ev.lhs)[1] == 'local':
+                a = strip(ev.lhs)
+                rhs = strip(ev.rhs)
+                if rhs[0] == 'call' and rhs[1] in ('std::min', 'std::max') and a in rhs[3]:
+                    accs[a] = a[2]
+            elif ev.kind == 'call' and ev.q in helpers:
+                for a in ev.args:
+                    a0 = strip(a)
+                    if a0[0] == 'un' and a0[1] == '&' and a0[2][0] == 'var' and a0[2][1] == 'local':
+                        accs[a0[2]] = a0[2][2]
+    return accs
+
+
+def run_rounds(ctx, P, A):
+    ctx.rule('R3', 'an accumulation never continues from a value that was already consumed: between the use of a minimum and the next update of the same '
+             'accumulator, the accumulator is reset to its sentinel (or overwritten by a first candidate)', 4)
+    helpers = {L + 'saturated_constraints_update'}
+    targets = [L + 'MaxMin::maxmin_solve', L + 'Variable::get_min_concurrency_slack', L + 'FairBottleneck::do_solve']
+    for q in targets:
+        fs = [f for f in P.fns.values() if f['q'] == q and f.get('blocks')]
+        if not fs:
+            raise AnalysisBroken('anchor %s not found' % q)
+        f = fs[0]
+        v = A.view(f)
+        accs = accumulators_of(A, f, helpers)
+        # the guarded form `if (x < acc) acc = x` has no std::min: add the R1 sites of this function
+        for sq, pred, name in SITES:
+            if sq == q:
+                for d in lib.extremum_updates(A, f, pred):
+                    a = strip(d['acc'])
+                    if a[0] == 'var' and a[1] == 'local':
+                        accs[a] = a[2]
+        ctx.require(bool(accs), 'R3', '%s: no local accumulator recognised' % q)
+        for acc, name in sorted(accs.items(), key=lambda kv: kv[1]):
+            guards = internal_guards(v, acc, helpers)
+            bad = []
+            seen_upd = [0]
+
+            def transfer(st, ev, acc=acc, guards=guards, bad=bad, seen_upd=seen_upd):
+                if ev.kind == 'branch':
+                    if not ex.mentions(ev.atom, acc):
+                        return st
+                    if ev.bid in guards:
+                        if st == 'C':
+                            bad.append((ev.line or v.elem_line(v.blocks[ev.bid].get('t', {}).get('c', 0)), 'the update test reads'))
+                        return st
+                    return 'C' if st == 'V' else st
+                k = acc_touch(acc, ev, helpers)
+                if k is None:
+                    return st
+                if k == 'reset':
+                    return 'S'
+                if k == 'fresh':
+                    return 'V'
+                if k == 'update':
+                    seen_upd[0] += 1
+                    if st == 'C':
+                        bad.append((ev.line, 'the update reads'))
+                    return 'V'
+                return 'C' if st == 'V' else st
+            cfg.abstract_run(A, f, 'S', transfer)
+            ctx.require(seen_upd[0] > 0 or bool(guards), 'R3', '%s: no update of %s met' % (q, name))
+            inst = '%s: %s is reset between its use and its next update' % (q.replace(L, ''), name)
+            if bad:
+                line, what = sorted(set(bad))[0]
+                ctx.violation('R3', inst, where(f, line), '%s %s after it was consumed, with no reset in between: the next round starts from the previous '
+                              'round\'s minimum' % (what, name), key='R3|%s|%s' % (q.rsplit('::', 1)[-1], name))
+            else:
+                ctx.holds('R3', inst, where(f), 'typestate sentinel -> accumulating -> consumed over every path; %d internal test(s)' % len(guards))
+
+
+# ---- R4: units ------------------------------------------------------------------------------------------------------------------------------------
+def lmm_dims():
+    D = dims.Dims(('rate', 'penalty', 'weight'), {})
+    u = D.unit
+    D.fields = {
+        L + 'Variable::value_': u(rate=1), L + 'Variable::bound_': u(rate=1), L + 'Variable::mu_': u(rate=1),
+        L + 'Variable::sharing_penalty_': u(penalty=1), L + 'Variable::staged_sharing_penalty_': u(penalty=1),
+        L + 'Element::consumption_weight': u(weight=1), L + 'Element::max_consumption_weight': u(weight=1),
+        L + 'Constraint::bound_': u(weight=1, rate=1), L + 'Constraint::dynamic_bound_': u(weight=1, rate=1), L + 'Constraint::remaining_': u(weight=1, rate=1),
+        L + 'Constraint::usage_': u(weight=1, penalty=-1),       # maxmin: sum (or max) of weight/penalty over the enabled elements
+        L + 'ConstraintLight::remaining_over_usage': u(rate=1, penalty=1),
+    }
+    # fair bottleneck keeps the share of the constraint (remaining_/nb) in usage_
+    D.overrides = {L + 'FairBottleneck::': {L + 'Constraint::usage_': u(weight=1, rate=1)}}
+    D.globals_one = {'sg_precision_workamount', 'sg_precision_timing'}
+    D.same_unit = {'double_update': (0, 1), 'double_equals': (0, 1)}
+    D.passthrough = {'std::fabs', 'fabs', 'std::abs'}
+    D.indirect_fields = {L + 'Constraint::dyn_constraint_cb_': 0}
+    D.getters = {L + 'Variable::get_value': u(rate=1), L + 'Variable::get_bound': u(rate=1), L + 'Variable::get_penalty': u(penalty=1),
+                 L + 'Constraint::get_bound': u(weight=1, rate=1), L + 'Constraint::get_load': u(weight=1, rate=1)}
+    return D
+
+
+def run_dimensions(ctx, P, A):
+    ctx.rule('R4', 'units of the filling arithmetic: with value_/bound_ in [rate], sharing_penalty_ in [penalty], consumption_weight in [weight], capacities '
+             '(bound_, dynamic_bound_, remaining_) in [weight·rate], usage_ in [weight/penalty] and the saturation ratios in [rate·penalty], both sides '
+             'of every store, comparison, min/max and double_update/double_equals of the lmm classes carry the same unit', 60)
+    D = lmm_dims()
+    fns = [f for f in P.fns.values() if f['q'].startswith(L) and f.get('blocks') and 'Bmf' not in f['q']]
+    D.run(A, sorted(fns, key=lambda f: f['key']))
+    byfn = {}
+    for r in D.decided:
+        byfn.setdefault(r['fn'], []).append(r)
+    for r in D.decided:
+        ctx.holds('R4', '%s: %s %s %s' % (r['fn'].replace(L, ''), r['a'][:70], r['what'], r['b'][:70]), '', '[%s]' % D.show(r['da']))
+    for r in D.conflicts:
+        f = [x for x in fns if x['q'] == r['fn']][0]
+        ctx.violation('R4', '%s: %s %s %s' % (r['fn'].replace(L, ''), r['a'][:70], r['what'], r['b'][:70]), where(f, r['line']),
+                      'left side in [%s], right side in [%s]' % (D.show(r['da']), D.show(r['db'])),
+                      key='R4|%s|%s %s %s' % (r['fn'].rsplit('::', 1)[-1].split('<')[0], r['a'][:60], r['what'], r['b'][:60]))
+    ctx.count('unit sites with one side not understood (not decided)', len(D.undecided))
+    for r in D.undecided[:40]:
+        ctx.holds('R4', 'not decided: %s: %s %s %s' % (r['fn'].replace(L, ''), r['a'][:70], r['what'], r['b'][:70]), '', 'one side has no unit in the table')
+    # the sites that carry the fairness argument must be among the decided ones
+    must = [('MaxMin::maxmin_solve', 'value_'), ('MaxMin::maxmin_solve', 'remaining_over_usage'), ('MaxMin::maxmin_solve', 'double_update'),
+            ('saturated_constraints_update', 'min_usage'), ('FairBottleneck::do_solve', 'min_inc')]
+    for fq, frag in must:
+        ok = any(fq in r['fn'] and (frag in r['a'] or frag in r['b'] or frag == r['what']) for r in D.decided + D.conflicts)
+        ctx.require(ok, 'R4', 'no decided unit site mentions %s in %s' % (frag, fq))
+
+
+# ---- R5..R9: structure of the filling rounds --------------------------------------------------------------------------------------------------------
+def fld(t, name):
+    return t[0] == 'field' and t[2].endswith('::' + name)
+
+
+def run_fill_structure(ctx, P, A):
+    fs = sorted([f for f in P.fns.values() if f['q'] == L + 'MaxMin::maxmin_solve' and f.get('blocks')], key=lambda f: f['key'])
+    if not fs:
+        raise AnalysisBroken('anchor MaxMin::maxmin_solve not found')
+    f = fs[0]
+    v = A.view(f)
+    # ---- R5 the "already fixed" marker ----------------------------------------------------------------------------------------------------------
+    ctx.rule('R5', 'value_ > 0 marks the variables fixed in this solve: INIT zeroes value_ of every enabled element of the constraints it processes '
+             '(not only of the consuming ones), and the recomputation of a FATPIPE usage_ keeps only variables whose value_ is not positive', 2)
+    zero = recomputed = 0
+    for eid in range(len(f['elems'])):
+        for ev in v.events_of(eid):
+            if ev.kind != 'assign':
+                continue
+            lhs, rhs = strip(ev.lhs), strip(ev.rhs)
+            if fld(lhs, 'value_') and ev.op == '=' and rhs in (('int', 0), ('float', 0.0)):
+                IN, tgt, _ = lib.dominating_facts(A, f, f['elems'][eid]['x'], with_lines=True, with_preds=True)
+                facts = IN.get(tgt, set())
+                weight = [a for a, t_, l_ in facts if 'consumption_weight' in repr(a)]
+                zero += 1
+                ctx.check(not weight, 'R5', 'maxmin_solve: INIT zeroes value_ of every enabled element', where(f, ev.line),
+                          'the store is %s' % ('under a test of consumption_weight: variables that do not consume keep the value of the previous solve and read as fixed' if weight else 'unconditional in the loop over enabled_element_set_'),
+                          key='R5|maxmin_solve|value_ zeroed')
+            if fld(lhs, 'usage_') and rhs[0] == 'call' and rhs[1] == 'std::max' and any(fld(strip(a), 'usage_') for a in rhs[3]):
+                IN, tgt, _ = lib.dominating_facts(A, f, f['elems'][eid]['x'], with_lines=True, with_preds=True)
+                facts = IN.get(tgt, set())
+                skip = False
+                for a, t_, l_ in facts:
+                    if a[0] == 'bin' and fld(strip(a[2]), 'value_') and strip(a[3]) in (('int', 0), ('float', 0.0)):
+                        if (a[1] == '<=' and t_) or (a[1] == '>' and not t_) or (a[1] == '==' and t_):
+                            skip = True
+                recomputed += 1
+                ctx.check(skip, 'R5', 'maxmin_solve: the FATPIPE usage_ is recomputed over the variables not yet fixed', where(f, ev.line),
+                          'the candidate is taken %s' % ('only when value_ <= 0' if skip else 'whatever value_ is: a fixed variable keeps the constraint in the table'),
+                          key='R5|maxmin_solve|fatpipe recompute skips fixed')
+    if recomputed >= 1 and zero == 0:
+        ctx.violation('R5', 'maxmin_solve: INIT zeroes value_ of every enabled element', where(f), 'value_ > 0 is tested as the "fixed" marker but maxmin_solve never '
+                      'stores 0 to value_: the values of the previous solve read as fixed', key='R5|maxmin_solve|value_ zeroed')
+    else:
+        ctx.require(zero >= 1, 'R5', 'no store value_ = 0 in maxmin_solve')
+    ctx.require(recomputed >= 1, 'R5', 'no std::max recomputation of usage_ in maxmin_solve')
+
+    # ---- R6 swap-remove of the light table ------------------------------------------------------------------------------------------------------
+    ctx.rule('R6', 'removal of a constraint from cnst_light_tab: the last entry is copied into the freed slot before the count is decremented, the moved '
+             'entry\'s back pointer is re-pointed after the copy, and the removed constraint\'s back pointer is cleared after that (the removed entry may '
+             'be the last one)', 2)
+    nrem = 0
+    for b in v.blocks:
+        seq = []
+        for eid in b.get('e', []):
+            for ev in v.events_of(eid):
+                if ev.kind == 'call' and ev.q.endswith('ConstraintLight::operator='):
+                    seq.append(('copy', ev))
+                elif ev.kind == 'assign' and fld(strip(ev.lhs), 'cnst_light_'):
+                    rhs = strip(ev.rhs)
+                    seq.append(('clear' if rhs[0] == 'null' or rhs == ('int', 0) else 'repoint', ev))
+                elif ev.kind == 'incdec' and ev.lhs[0] == 'var' and ev.lhs[2] == 'cnst_light_num' and '--' in ev.op:
+                    seq.append(('dec', ev))
+                elif ev.kind == 'assign' and ev.lhs[0] == 'var' and ev.lhs[2] == 'cnst_light_num' and ev.op in ('-=', '='):
+                    seq.append(('dec', ev))
+        kinds = [k for k, _ in seq]
+        if 'clear' not in kinds:
+            continue
+        nrem += 1
+        line = seq[0][1].line
+        pos = {k: kinds.index(k) for k in set(kinds)}
+        ok = all(k in pos for k in ('copy', 'repoint', 'clear', 'dec')) and pos['copy'] < pos['dec'] and pos['copy'] < pos['repoint'] < pos['clear']
+        ctx.check(ok, 'R6', 'maxmin_solve: removal sequence at line %s' % line, where(f, line), 'order: %s' % ' ; '.join(kinds),
+                  key='R6|maxmin_solve|removal order')
+    ctx.require(nrem >= 2, 'R6', 'fewer than two removal sequences recognised in maxmin_solve (%d)' % nrem)
+
+    # ---- R7 the ratio of a kept constraint follows its remaining_/usage_ -----------------------------------------------------------------------------
+    ctx.rule('R7', 'after the capacity or the usage of a constraint is debited for a fixed variable, the constraint either leaves the light table or its '
+             'remaining_over_usage is recomputed as remaining_/usage_ before the next element is handled', 1)
+    bad = []
+    debits = [0]
+
+    def transfer(st, ev):
+        if ev.kind == 'assign':
+            lhs, rhs = strip(ev.lhs), strip(ev.rhs)
+            if lhs[0] == 'var' and lhs[2].startswith('__range') and fld(rhs, 'cnsts_'):
+                return ('in', lhs[2][7:], False)
+            if st[0] != 'in':
+                return st
+            if fld(lhs, 'usage_') or fld(lhs, 'remaining_'):
+                debits[0] += 1
+                return (st[0], st[1], True)
+            if fld(lhs, 'remaining_over_usage'):
+                good = rhs[0] == 'bin' and rhs[1] == '/' and fld(strip(rhs[2]), 'remaining_') and fld(strip(rhs[3]), 'usage_')
+                return (st[0], st[1], st[2] and not good)
+            if fld(lhs, 'cnst_light_') and (rhs[0] == 'null' or rhs == ('int', 0)):
+                return (st[0], st[1], False)
+            return st
+        if st[0] != 'in':
+            return st
+        if ev.kind == 'call':
+            if ev.q == 'double_update' and ev.args and strip(ev.args[0])[0] == 'un' and (fld(strip(ev.args[0])[2], 'usage_') or fld(strip(ev.args[0])[2], 'remaining_')):
+                debits[0] += 1
+                return (st[0], st[1], True)
+            if ev.q.endswith('::operator++') and ev.obj is not None and ev.obj[0] == 'var' and ev.obj[2] == '__begin' + st[1]:
+                if st[2]:
+                    bad.append(ev.line)
+                return (st[0], st[1], False)
+            return st
+        if ev.kind == 'branch' and ev.atom[0] == 'truthy' and fld(strip(ev.atom[1]), 'cnst_light_') and not ev.pol:
+            return (st[0], st[1], False)
+        return st
+    cfg.abstract_run(A, f, ('out', '', False), transfer)
+    ctx.require(debits[0] >= 2, 'R7', 'no debit of remaining_/usage_ recognised in the loop over the elements of a fixed variable')
+    ctx.check(not bad, 'R7', 'maxmin_solve: every debited constraint leaves the table or gets its ratio recomputed', where(f, bad[0] if bad else None),
+              'a path reaches the next element with remaining_/usage_ changed and remaining_over_usage stale: the next round picks its bottleneck from an old ratio' if bad
+              else '%d debit event(s) followed on every path' % debits[0], key='R7|maxmin_solve|ratio refreshed')
+
+    # ---- R8 the capacity used by the filling is the adjusted one -------------------------------------------------------------------------------------
+    ctx.rule('R8', 'MaxMin reads Constraint::bound_ only to initialise dynamic_bound_ (directly or through dyn_constraint_cb_): every later capacity '
+             'comes from dynamic_bound_', 1)
+    nb = 0
+    for g in [f]:
+        gv = A.view(g)
+        for eid in range(len(g['elems'])):
+            for ev in gv.events_of(eid):
+                if ev.kind != 'assign':
+                    continue
+                rhs = strip(ev.rhs)
+                reads = [t for t in ex.subterms(rhs) if t[0] == 'field' and t[2] == L + 'Constraint::bound_']
+                if not reads:
+                    continue
+                nb += 1
+                ctx.check(fld(strip(ev.lhs), 'dynamic_bound_'), 'R8', 'maxmin_solve: bound_ feeds %s' % ex.pretty(ev.lhs), where(g, ev.line),
+                          'bound_ is the unadjusted capacity' if not fld(strip(ev.lhs), 'dynamic_bound_') else 'initialisation of the adjusted capacity',
+                          key='R8|maxmin_solve|bound_ feeds %s' % ex.pretty(ev.lhs)[-30:])
+    ctx.require(nb >= 1, 'R8', 'no read of Constraint::bound_ in MaxMin')
+
+    # ---- R9 one activity test ----------------------------------------------------------------------------------------------------------------------
+    ctx.rule('R9', 'every test of consumption_weight in the maxmin and fair-bottleneck filling compares it with 0 ("consumes"): the sets of active elements, '
+             'saturated variables and usage contributors are defined by the same predicate', 4)
+    nt = 0
+    for g in sorted([x for x in P.fns.values() if x.get('blocks') and (x['q'] in (L + 'MaxMin::maxmin_solve', L + 'saturated_variable_set_update', L + 'FairBottleneck::do_solve') or x['q'].startswith(L + 'FairBottleneck::do_solve'))], key=lambda x: x['key']):
+        if g['q'] == L + 'MaxMin::maxmin_solve' and g is not f:
+            continue
+        gv = A.view(g)
+        for b in g['blocks']:
+            c = gv.cond_atom(b['id'])
+            if c is None:
+                continue
+            for t in ex.subterms(c[0]):
+                if t[0] == 'bin' and t[1] in dims.ARITH_CMP and (fld(strip(t[2]), 'consumption_weight') or fld(strip(t[3]), 'consumption_weight')):
+                    other = strip(t[3]) if fld(strip(t[2]), 'consumption_weight') else strip(t[2])
+                    if other[0] not in ('int', 'float'):
+                        continue
+                    nt += 1
+                    line = gv.elem_line(b['t']['c']) if 'c' in (b.get('t') or {}) else g['line']
+                    ctx.check(other[1] == 0, 'R9', '%s: %s' % (g['q'].replace(L, '').split('<')[0], ex.pretty(t)), where(g, line),
+                              'threshold %s' % other[1], key='R9|%s|%s' % (g['q'].rsplit('::', 1)[-1].split('<')[0], ex.pretty(t)))
+    ctx.require(nt >= 4, 'R9', 'fewer than 4 tests of consumption_weight recognised (%d)' % nt)
+
+
 def run(ctx):
     P = ctx.load(UNITS)
     A = ctx.analyzer
@@ -128,5 +491,8 @@ def run(ctx):
         shapes.add((newmin, tuple(eq), len(assign), len(app), bool(assign) and assign[0].args[0] == ('int', 1)))
     want = {(True, (), 1, 0, True), (False, (True,), 0, 1, False), (False, (False,), 0, 0, False)}
     ctx.check(shapes == want, 'R2', 'saturated_constraints_update path shapes', where(f), 'shapes (new minimum, tie test, assign, append, assign(1,..)) %s' % sorted(shapes, key=repr), key='R2|saturated_constraints_update|ties')
-    ctx.assume('everything numeric (the rates, the precision handling, the BMF fixed point) is not decided')
+    run_rounds(ctx, P, A)
+    run_dimensions(ctx, P, A)
+    run_fill_structure(ctx, P, A)
+    ctx.assume('everything numeric (the values of the rates, the precision handling, the BMF fixed point) is not decided')
     return EXPLANATION
